@@ -4,7 +4,7 @@
 # the protocol of record is try_mutant.sh / all_mutants.sh (patch applied to /repo itself).
 D="$(cd "$1" && pwd)"; shift
 N="$(basename "$D")"; WT="/tmp/wt/mutrun_$N"
-exec 8>/root/scratch/evidence.lock; flock 8
+mkdir -p /root/scratch; exec 8>/root/scratch/evidence.lock; flock 8
 BK="$(mktemp -d /root/scratch/evbk.XXXX)"; cp -a /verif/evidence/. "$BK"/
 rm -rf "$WT"; git -C /repo worktree prune; git -C /repo worktree add --detach "$WT" HEAD -q || exit 3
 git -C "$WT" apply "$D/patch.diff" || { echo "patch does not apply"; git -C /repo worktree remove --force "$WT"; rm -rf "$BK"; exit 3; }
